@@ -91,7 +91,16 @@ def tables():
         d = unbind_ir.body[0].value
         shape = [(k.value if isinstance(k, ast.Constant) else "**") + " = " + ast.unparse(v) for k, v in zip(d.keys, d.values)]
 
+    # how a name is held against the exclusion patterns: the body of `is_excluded_name` and the flags the
+    # patterns are compiled with (live probe: a case / newline / verbose-sensitive pattern)
+    from rattr.config import _types as cfg_types
+    excl_body = _stmts(_fn(util, "is_excluded_name"))
+    comp = cfg_types._cached_re_compile
+    excl_flags = int(comp("a.b").flags)
+
     return [
+        f"def isExcludedNameBody : List String := {llist(excl_body)}",
+        f"def excludedPatternFlags : Nat := {excl_flags}",
         f"def unbindIrShape : List String := {llist(shape)}",
         f"def unbindIrParams : List String := {llist([a.arg for a in unbind_ir.args.args])}",
         f"def unbindNameBody : List String := {llist(_stmts(_fn(su, 'unbind_name')))}",
